@@ -219,6 +219,12 @@ def run(ctx):
     n4 = r8merge.check(ctx, ctx.need_fn(prog3, "intra_node_aggregation"), "R8.merge",
                        {"off": "offsets[%d]", "len": "lengths[%d]", "addr": "bufAddr[%d]", "n": "npairs"})
     ctx.require(n4 >= 1000, "R8.merge: only %d segment lists evaluated" % n4)
+    from rules import r8flat
+    ctx.rule("R8.flatten", "the aggregator's subarray flattening addresses exactly the requested elements (bounded)")
+    n5 = r8flat.check(ctx, ctx.need_fn(prog3, "flatten_subarray"), "R8.flatten", "arrays")
+    ctx.require(n5 >= 200, "R8.flatten: only %d requests evaluated" % n5)
+    n6 = r8flat.check_record_loop(ctx, ctx.need_fn(prog3, "flatten_req"), "R8.flatten")
+    ctx.require(n6 >= 30, "R8.flatten: only %d record cells evaluated" % n6)
     ctx.require(n3 >= 10, "expected >= 10 element moves over parallel arrays in the aggregation layer, found %d" % n3)
     ctx.require(n1 >= 9 and n2 >= 5, "expected >= 9 + 5 numeric report-back sites, found %d + %d" % (n1, n2))
     # --- report back --------------------------------------------------------------------------
